@@ -156,7 +156,8 @@ ParsesForeignHeader(c) ==
      \/ \E b \in 1..c.s.n : HasB(c, "csize", b) /\ Presence(c, b) \in {"full", "hdronly", "paypart"}
      \/ (Has(c, "appendlong") /\ Blocks(c)[1] \in {"go", "stop"})
      \/ (Has(c, "appendshort") /\ Blocks(c)[1] = "stop")
-Cost(c) == IF "ForgedSizeAlloc" \in Dev /\ ParsesForeignHeader(c) THEN {"ok", "huge"} ELSE {"ok"}
+CostWith(D, c) == IF "ForgedSizeAlloc" \in D /\ ParsesForeignHeader(c) THEN {"ok", "huge"} ELSE {"ok"}
+Cost(c) == CostWith(Dev, c)
 
 -----------------------------------------------------------------------------
 (* the taxonomy as a (trivial) state machine, so that TLC enumerates it *)
